@@ -47,8 +47,8 @@ class ProgGen(Gen):
         r = self.rng
         nparams = r.randint(0, 3)
         params = [self.simple_type() for _ in range(nparams)]
-        if not pure and r.random() < 0.35 and self.structs:
-            params.append(('ptr', ('named', r.choice(self.structs))))
+        if not pure and r.random() < 0.35 and self.ustructs():
+            params.append(('ptr', ('named', r.choice(self.ustructs()))))
         if not pure and r.random() < 0.25:
             params.append(('slice', tint(self.kind())))
         nres = r.choice([1, 1, 1, 2, 0] if not pure else [1, 1, 1, 2])
@@ -500,6 +500,7 @@ class ProgGen(Gen):
         self.recovering = []
         self.rt_err_switch = getattr(self, 'rt_err_switch', False)
         self.mret = [tint(self.kind())]
+        self.make_ifaces()
         for _ in range(r.randint(1, 3)):
             d = self.make_struct()
         if r.random() < 0.5:
@@ -507,7 +508,6 @@ class ProgGen(Gen):
             d.under = tint(self.kind())
             P.add_type(d)
             self.nameds.append(d)
-        self.make_ifaces()
         if r.random() < 0.6:
             g = Global(len(P.globals), '%sG%d' % (self.pfx, len(P.globals)), tint(self.kind()), None, self.cur_pkg)
             g.init = self.int_lit(g.ty)
